@@ -7,4 +7,5 @@ pub mod core;
 pub mod exec;
 pub mod sio;
 pub mod refmodel;
+pub mod app;
 pub mod engines;
